@@ -37,6 +37,8 @@ SCENARIOS = {
     "diff_keys": [[["produce", "k1"]], [["produce", "k2"]]],
     "same_bytes": [[["produce", "k1"]], [["produce2", "k1"]]],
     "nested": [[["nest", "k1"]], [["produce", "k1"]]],
+    # two callers of the outer call and one of the inner call (waiters for different calls at the same time)
+    "nested_3": [[["nest", "k1"]], [["nest", "k1"]], [["produce", "k1"]]],
     "batch": [[["batch", ["k1", "k2"]]], [["produce", "k2"]]],
     "batch_overlap": [[["batch", ["k1", "k2"]]], [["batch", ["k2", "k1", "k2"]]]],
     "three_keys": [[["produce", "k1"], ["produce", "k3"]], [["produce", "k2"], ["produce", "k1"]], [["produce2", "k3"]]],
